@@ -58,6 +58,21 @@ def cs3(a, b):
     return sq(a[0] * b[0] + a[1] * b[1] + a[2] * b[2]) <= (sq(a[0]) + sq(a[1]) + sq(a[2])) * (sq(b[0]) + sq(b[1]) + sq(b[2]))
 
 
+def cs_unit(r, d):
+    """lemma: for a unit vector r, (r.d)^2 <= d.d   (Cauchy-Schwarz with |r| = 1)"""
+    return implies(sq(r[0]) + sq(r[1]) + sq(r[2]) == 1,
+                   sq(r[0] * d[0] + r[1] * d[1] + r[2] * d[2]) <= sq(d[0]) + sq(d[1]) + sq(d[2]))
+
+
+def abs_le(x, y):
+    """lemma: x^2 <= y^2 and y >= 0  =>  -y <= x <= y"""
+    return implies(sand(sq(x) <= sq(y), y >= 0), sand(-y <= x, x <= y))
+
+
+_LEMMAS = {"cs_unit": ("r0 r1 r2 d0 d1 d2", "cs_unit((r0, r1, r2), (d0, d1, d2))"),
+           "abs_le": ("x y", "abs_le(x, y)")}
+
+
 def centred(k, shape):
     return (k[0] - (shape[0] - 1) / 2, k[1] - (shape[1] - 1) / 2, k[2] - (shape[2] - 1) / 2)
 
@@ -70,7 +85,7 @@ def dot3(a, b):
     return a[0] * b[0] + a[1] * b[1] + a[2] * b[2]
 
 
-_H = dict(pad_of=pad_of, dot3=dot3, cs3=cs3, centred=centred, row=row, win0=win0, margin=margin, sample=sample, in_ball=in_ball, sq=sq)
+_H = dict(cs_unit=cs_unit, abs_le=abs_le, pad_of=pad_of, dot3=dot3, cs3=cs3, centred=centred, row=row, win0=win0, margin=margin, sample=sample, in_ball=in_ball, sq=sq)
 
 
 @contract("acryo._utils:prepare_affine", props=["C02"])
@@ -117,6 +132,105 @@ class prepare_affine:
                 ("all(-output_shape[a] / 2 <= dot3(row(rot.as_matrix(), a), centred((k0, k1, k2), output_shape)) "
                  "<= output_shape[a] / 2 for a in range(3))", "cone0"),
                 "all(sample(result[1], a, (k0, k1, k2)) == center[a] - win0(center[a], output_shape[a], order) + "
+                "dot3(row(rot.as_matrix(), a), centred((k0, k1, k2), output_shape)) for a in range(3))",
+            ],
+            "show": "all(margin(order) <= sample(result[1], a, (k0, k1, k2)) <= result[0].shape[a] - 1 - margin(order) "
+                    "for a in range(3))",
+        },
+    }
+
+
+# ---------------------------------------------------------------------------
+# corner-safe variant: the window is the bounding cube of the box diagonal, so the rule holds for the WHOLE box
+from pyvc.stubs import _sqrt
+from pyvc.values import to_real
+
+
+def diag(shape):
+    """length of the box diagonal, as the code computes it"""
+    return _sqrt(to_real(sq(shape[0]) + sq(shape[1]) + sq(shape[2])))
+
+
+def cs_pad(order):
+    """margin kept around the diagonal cube on each side (derived from the code)"""
+    return smax(order, 1)
+
+
+def cs_extra():
+    """additional voxels at the upper end of the window (derived from the code)"""
+    return 2
+
+
+def cs_win0(c, shape, order):
+    return trunc(c - diag(shape) / 2 - cs_pad(order))
+
+
+def cs_len(c, shape, order):
+    return trunc(cs_win0(c, shape, order) + diag(shape) + 2 * cs_pad(order) + cs_extra()) - cs_win0(c, shape, order)
+
+
+def in_box(k, shape):
+    return sand(*[sand(k[a] >= 0, k[a] <= shape[a] - 1) for a in range(3)])
+
+
+_HC = dict(_H, diag=diag, cs_pad=cs_pad, cs_win0=cs_win0, cs_len=cs_len, in_box=in_box, sqrt=_sqrt, cs_extra=cs_extra)
+
+
+@contract("acryo._utils:prepare_affine_cornersafe", props=["C02"])
+class prepare_affine_cornersafe:
+    params = dict(img=T.Arr(3, "real"), center=T.Tuple(T.Real(), T.Real(), T.Real()),
+                  output_shape=T.Tuple(T.Int(lo=1, cands=(3, 4)), T.Int(lo=1, cands=(3, 5)), T.Int(lo=1, cands=(3, 1))),
+                  rot=T.Rot(),
+                  order=T.OneOf(0, 1, 3))
+    helpers = _HC
+    requires = []
+    raises = {"SubvolumeOutOfBoundError":
+              "any(cs_win0(c, output_shape, order) + cs_len(c, output_shape, order) <= 0 or "
+              "cs_win0(c, output_shape, order) >= s0 for c, s0 in zip(center, img.shape))"}
+    native_call = "(lambda r: (np.asarray(r[0]), np.asarray(r[1])))(_mod.prepare_affine_cornersafe(**args))"
+    lemmas = _LEMMAS
+    ensures = {
+        "block_shape": "all(result[0].shape[a] == cs_len(center[a], output_shape, order) for a in range(3))",
+        "block_is_window":
+            "forall(lambda u0, u1, u2: implies("
+            "0 <= u0 + cs_win0(center[0], output_shape, order) < img.shape[0] and "
+            "0 <= u1 + cs_win0(center[1], output_shape, order) < img.shape[1] and "
+            "0 <= u2 + cs_win0(center[2], output_shape, order) < img.shape[2], "
+            "result[0][u0, u1, u2] == img[u0 + cs_win0(center[0], output_shape, order), "
+            "u1 + cs_win0(center[1], output_shape, order), u2 + cs_win0(center[2], output_shape, order)]), "
+            "(0, result[0].shape[0]), (0, result[0].shape[1]), (0, result[0].shape[2]))",
+        "matrix_linear": "all(close(result[1][a, b], rot.as_matrix()[a, b]) for a in range(3) for b in range(3))",
+        "matrix_offset":
+            "all(close(result[1][a, 3], center[a] - cs_win0(center[a], output_shape, order) "
+            "- sum(rot.as_matrix()[a, b] * (output_shape[b] - 1) / 2 for b in range(3))) for a in range(3))",
+        "matrix_affine_row": "result[1][3, 0] == 0 and result[1][3, 1] == 0 and result[1][3, 2] == 0 and result[1][3, 3] == 1",
+        # with corner_safe the rule holds for the whole box: every voxel 0 <= k <= shape-1
+        "sample_in_window": {
+            "vars": {"k0": "real", "k1": "real", "k2": "real"},
+            "assume": "in_box((k0, k1, k2), output_shape) and "
+                      "all(margin(order) <= sample(result[1], a, (k0, k1, k2)) + cs_win0(center[a], output_shape, order) "
+                      "<= img.shape[a] - 1 - margin(order) for a in range(3))",
+            "use": ["all(cs_unit(row(rot.as_matrix(), a), centred((k0, k1, k2), output_shape)) for a in range(3))",
+                    "all(abs_le(2 * dot3(row(rot.as_matrix(), a), centred((k0, k1, k2), output_shape)), diag(output_shape)) "
+                    "for a in range(3))"],
+            "steps": [
+                # a voxel of the box is within (s_a - 1)/2 of the centre on every axis
+                ("all(sq(centred((k0, k1, k2), output_shape)[a]) <= sq((output_shape[a] - 1) / 2) for a in range(3))", "cone0"),
+                # (s-1)^2 <= s^2 - 1 for s >= 1
+                ("all(sq((output_shape[a] - 1) / 2) <= (sq(output_shape[a]) - 1) / 4 for a in range(3))", "cone0"),
+                # rotation rows are unit vectors (SO(3) invariant), so (row . D)^2 <= |D|^2 by the lemma instance
+                ("all(sq(dot3(row(rot.as_matrix(), a), centred((k0, k1, k2), output_shape))) <= "
+                 "sq(centred((k0, k1, k2), output_shape)[0]) + sq(centred((k0, k1, k2), output_shape)[1]) + "
+                 "sq(centred((k0, k1, k2), output_shape)[2]) for a in range(3))", "ufabs"),
+                ("all(sq(dot3(row(rot.as_matrix(), a), centred((k0, k1, k2), output_shape))) <= "
+                 "(sq(output_shape[0]) + sq(output_shape[1]) + sq(output_shape[2]) - 3) / 4 for a in range(3))", "ufabs"),
+                # diag^2 == s0^2 + s1^2 + s2^2  (sqrt axiom)
+                ("sq(diag(output_shape)) == sq(output_shape[0]) + sq(output_shape[1]) + sq(output_shape[2])", "ring"),
+                ("all(sq(2 * dot3(row(rot.as_matrix(), a), centred((k0, k1, k2), output_shape))) <= sq(diag(output_shape)) "
+                 "for a in range(3))", "ring"),
+                ("all(-diag(output_shape) / 2 <= dot3(row(rot.as_matrix(), a), centred((k0, k1, k2), output_shape)) "
+                 "<= diag(output_shape) / 2 for a in range(3))", "all+opt"),
+                "all(sample(result[1], a, (k0, k1, k2)) == center[a] - cs_win0(center[a], output_shape, order) + "
                 "dot3(row(rot.as_matrix(), a), centred((k0, k1, k2), output_shape)) for a in range(3))",
             ],
             "show": "all(margin(order) <= sample(result[1], a, (k0, k1, k2)) <= result[0].shape[a] - 1 - margin(order) "
